@@ -27,11 +27,15 @@
 #include "math/big_num.h"
 #include "specs/bn_spec.h"
 
+#ifdef VF_BN_LIGHT_SET	/* light callee contracts for the bn_mod_sqrt proofs, see contracts/bn_light.h */
+#include "contracts/bn_light.h"
+#else
 #include "contracts/bn_digit.h"
 #include "contracts/bn_digits.h"
 #include "contracts/bn_struct.h"
 #include "contracts/bn_io.h"
 #include "contracts/bn_mul.h"
 #include "contracts/bn_mod.h"
+#endif
 
 #endif /* VF_CONTRACTS_BN_H */
